@@ -1884,3 +1884,41 @@ R("prepare-options-helper", ["C08"],
 		pool := app.Context.feePool
 		pool.SetupOpt(feeOpt)
 """))
+M("redeem-amount-read-before-error", "C18", "C18.errfirst",
+  ("action/eth/ext_redeem.go", """	req, err := ethereum.ParseRedeem(redeem.ETHTxn, ethOptions.ContractABI)
+	if err != nil {
+		return helpers.LogAndReturnFalse(ctx.Logger, action.ErrInvalidExtTx, redeem.Tags(), err)
+	}
+""", """	req, err := ethereum.ParseRedeem(redeem.ETHTxn, ethOptions.ContractABI)
+	ctx.Logger.Detail("redeem request amount", req.Amount)
+	if err != nil {
+		return helpers.LogAndReturnFalse(ctx.Logger, action.ErrInvalidExtTx, redeem.Tags(), err)
+	}
+"""))
+M("domain-sale-error-logged-not-returned", "C18", "C18.errfirst",
+  ("action/ons/sale.go", """	domain, err := ctx.Domains.Get(sale.Name)
+	if err != nil {
+		if err == ons.ErrDomainNotFound {
+			return false, action.Response{Log: "domain not found"}
+		}
+		return false, action.Response{Log: "error getting domain"}
+	}""", """	domain, err := ctx.Domains.Get(sale.Name)
+	if err != nil {
+		if err == ons.ErrDomainNotFound {
+			return false, action.Response{Log: "domain not found"}
+		}
+		ctx.Logger.Error("error getting domain", err)
+	}"""))
+R("redeem-error-switch", ["C18"],
+  ("action/eth/ext_redeem.go", """	req, err := ethereum.ParseRedeem(redeem.ETHTxn, ethOptions.ContractABI)
+	if err != nil {
+		return helpers.LogAndReturnFalse(ctx.Logger, action.ErrInvalidExtTx, redeem.Tags(), err)
+	}
+""", """	req, err := ethereum.ParseRedeem(redeem.ETHTxn, ethOptions.ContractABI)
+	switch {
+	case err != nil:
+		return helpers.LogAndReturnFalse(ctx.Logger, action.ErrInvalidExtTx, redeem.Tags(), err)
+	case req == nil:
+		return helpers.LogAndReturnFalse(ctx.Logger, action.ErrInvalidExtTx, redeem.Tags(), errors.New("no request"))
+	}
+"""))
